@@ -174,6 +174,44 @@ func c17SplitResidue(c *Ctx) {
 	c.Nontrivial(fmt.Sprint(ops))
 }
 
+// c17RetryAfterRejection: a call that was rejected is repeated later, corrected - after the table has changed in a way
+// that decides it differently. Whatever the rejected call looked at, it left nothing behind that a later call may rely on.
+func c17RetryAfterRejection(c *Ctx) {
+	r := c.R
+	X := ""
+	for try := 0; try < 50 && !strings.Contains(X, "{"); try++ {
+		X = gen.Simple.Pattern(r)
+	}
+	if !strings.Contains(X, "{") {
+		return
+	}
+	Y := twinOf(r, X)
+	bad := func() []string {
+		return append([]string(nil), ref.Pick(r, [][]string{{"GET", "BOGUS"}, {"OPTIONS"}, {"HEAD", "GET"}, {"PUT", ""}, {"POST", "get"}, {"DELETE", "OPTIONS", "PUT"}})...)
+	}
+	good := func() []string {
+		return append([]string(nil), ref.Pick(r, [][]string{{"GET"}, {"PUT", "DELETE"}, {"POST"}, nil})...)
+	}
+	var ops []dOp
+	if r.Chance(1, 3) {
+		ops = append(ops, H("/unrelated/"+ref.Pick(r, []string{"a", "{id}", "b/c"}), "GET"))
+	}
+	switch r.Intn(4) {
+	case 0: // rejected, then the twin takes the place, then the corrected call: must be rejected
+		ops = append(ops, H(X, bad()...), H(Y, good()...), H(X, good()...))
+	case 1: // rejected, corrected, repeated: a duplicate; the twin is rejected too
+		ms := good()
+		ops = append(ops, H(X, bad()...), H(X, ms...), H(X, ms...), H(Y, good()...))
+	case 2: // both spellings rejected first
+		ops = append(ops, H(X, bad()...), H(Y, bad()...), H(Y, good()...), H(X, good()...))
+	default: // the pattern was live, is removed, rejected once, its twin registered, then it comes back
+		ops = append(ops, H(X, "GET"), Rm(X), H(X, bad()...), H(Y, good()...), H(X, good()...), Rm(Y), H(X, good()...))
+	}
+	c.Class("retry_after_rejection_script")
+	runDirectedHistory(c, "C17", stdIC, r.Chance(1, 4), ops, nil)
+	c.Nontrivial(fmt.Sprint(ops))
+}
+
 func hOps(xs ...dOp) []dOp { return xs }
 
 func H(p string, ms ...string) dOp  { return dOp{"handle", p, ms} }
@@ -225,6 +263,7 @@ func c17Directed() []Directed {
 		directedHist("duplicate-after-valid-method", "C17", noneIC, false, hOps(H("/p", "POST", "PUT"), H("/p", "GET", "POST")), g("/p")),
 		directedHist("rejected-call-leaves-split", "C17", noneIC, false, hOps(H("/u/{id}/author", "GET"), H("/u/{id}/abc", "OPTIONS")), g("/u/7/a/author"), g("/u/7/author")),
 		directedHist("reserved-method-last", "C17", noneIC, true, hOps(H("/t", "GET", "TRACE")), g("/t")),
+		directedHist("retry-after-rejected-methods", "C17", noneIC, false, hOps(H("/users/{id}/posts", "GET", "BOGUS"), H("/users/{name}/posts", "GET"), H("/users/{id}/posts", "GET")), g("/users/7/posts")),
 		directedHist("twin-of-only-route", "C17", noneIC, false, hOps(H("/u/{id}", "GET"), H("/u/{name}", "GET"))),
 		directedHist("twin-ignore-flag", "C17", noneIC, false, hOps(H("/u/{id}/x", "GET"), H("/u/{-id}/x", "POST"))),
 		directedHist("non-twin-never-ambiguous", "C17", noneIC, false, hOps(H("/u/{id}/x", "GET"), H("/u/{name}/y", "GET"), H(`/u/{id:\d+}/x`, "GET"))),
@@ -287,10 +326,14 @@ func init() {
 				c17SplitResidue(c)
 				return
 			}
+			if c.R.Chance(1, 8) {
+				c17RetryAfterRejection(c)
+				return
+			}
 			runHistory(c, "C17")
 		},
 		Directed: c17Directed,
-		Rule: "one case in five = a scripted split-residue history on a fresh router (a route P with literal text after a parameter, a sibling Q that splits P's node inside that text, Q taken away again by Remove / method-by-method Remove / Prefix.Clean, in either registration order; then the name-only twin of P - the only other route - must be rejected and change nothing); otherwise case = same history generator with 30% Handle calls built to be rejected (bad method at any list position, duplicate of a live method, repeated method, name-only twin); every rejected call is bracketed by two snapshots (Routes() + all probes incl. tricky paths + Allow) that must be equal, and every accept/reject must be justified by the model; " +
+		Rule: "one case in ten = a scripted retry history (a call rejected for its method list, the name-only twin of its pattern registered, the corrected call repeated: decided on the table as it is then); one case in five = a scripted split-residue history on a fresh router (a route P with literal text after a parameter, a sibling Q that splits P's node inside that text, Q taken away again by Remove / method-by-method Remove / Prefix.Clean, in either registration order; then the name-only twin of P - the only other route - must be rejected and change nothing); otherwise case = same history generator with 30% Handle calls built to be rejected (bad method at any list position, duplicate of a live method, repeated method, name-only twin); every rejected call is bracketed by two snapshots (Routes() + all probes incl. tricky paths + Allow) that must be equal, and every accept/reject must be justified by the model; " +
 			"non-trivial (distinct by live table + call) = rejected Handle on a non-empty table",
 		Floors: func(t string) map[string]int64 {
 			if t == "quick" {
